@@ -383,9 +383,16 @@ ShrinkOnlyOnLossOrEcn == (Stepped /\ c.cwnd < last.c0.cwnd) => last.trig # {}
 \* "... at most once per round trip": the packet whose loss / mark shrinks the window was sent after the previous shrink
 \* (the collapse on persistent congestion -- losses spanning three probe timeouts -- is the RFC's explicit exception)
 PersistentCongestion == last.span >= 3 * (last.c0.srtt + Max(4 * last.c0.var, Gran) + MaxAckDelay)
-ShrinkAtMostOncePerRtt ==
-    (Stepped /\ c.cwnd < last.c0.cwnd /\ last.trig # {} /\ last.shrinkAt0 # NONE /\ ~PersistentCongestion)
-    => (\E t \in last.trig : t > last.shrinkAt0)
+OncePerRttBroken ==
+    /\ Stepped /\ c.cwnd < last.c0.cwnd /\ last.trig # {} /\ last.shrinkAt0 # NONE /\ ~PersistentCongestion
+    /\ \A t \in last.trig : t <= last.shrinkAt0
+LostCount == Cardinality(last.lost[1]) + Cardinality(last.lost[2]) + Cardinality(last.lost[3])
+\* reported under three names by input class (their conjunction is the property): a second reduction although the
+\* controller knows it is in a recovery period and fewer than three packets were lost / three or more packets lost in one
+\* pass / the controller had forgotten the recovery period
+ShrinkAtMostOncePerRtt == ~(OncePerRttBroken /\ last.c0.rec # NONE /\ LostCount < 3)
+ShrinkOnceBurstLoss == ~(OncePerRttBroken /\ last.c0.rec # NONE /\ LostCount >= 3)
+ShrinkOnceRecoveryCleared == ~(OncePerRttBroken /\ last.c0.rec = NONE)
 \* "grows only on acknowledgements outside recovery": some packet acknowledged by this call was sent after recovery started
 GrowOnlyOnAckOutsideRecovery ==
     (Stepped /\ c.cwnd > last.c0.cwnd) =>
@@ -423,7 +430,8 @@ PtoBackoffNotReset ==
 AbandonOnlyAfterMaxPto == (Stepped /\ last.act = "tick" /\ ~last.ok) => c.pton > MaxPto
 
 Inv == /\ LossOnlyAfterLaterAck /\ LossOnlyBeyondThreshold /\ TimeThresholdIsNineEighths /\ AckedNeverLost
-       /\ CwndAtLeastTwoDatagrams /\ ShrinkOnlyOnLossOrEcn /\ ShrinkAtMostOncePerRtt /\ GrowOnlyOnAckOutsideRecovery
+       /\ CwndAtLeastTwoDatagrams /\ ShrinkOnlyOnLossOrEcn /\ ShrinkAtMostOncePerRtt /\ ShrinkOnceBurstLoss /\ ShrinkOnceRecoveryCleared
+       /\ GrowOnlyOnAckOutsideRecovery
        /\ BytesInFlightExact /\ NoSendBeyondWindow
        /\ TimerArmed /\ ExpiredTimerActs /\ PtoIntervalDoubles /\ PtoBackoffNotReset /\ AbandonOnlyAfterMaxPto
 =============================================================================
